@@ -70,8 +70,9 @@ def gen_box(rng, dim):
     return box, style
 
 
-def gen_objective(rng, dim, box, maximize):
-    kind = rng.choice(["sphere", "sphere", "funnel", "rastrigin", "linear", "plateau", "zero", "zerobest", "funnel"])
+def gen_objective(rng, dim, box, maximize, kind=None):
+    kind0 = rng.choice(["sphere", "sphere", "funnel", "rastrigin", "linear", "plateau", "zero", "zerobest", "funnel"])
+    kind = kind or kind0
     o = {"kind": kind}
     inside = [lo + rng.random() * (hi - lo) for lo, hi in box]
     if kind in ("sphere", "rastrigin", "plateau", "zerobest"):
@@ -199,7 +200,7 @@ def gen_spec(seed, **force):
         box, style = force["box"], "forced"
     maximize = force.get("maximize", rng.random() < 0.4)
     spec = {"seed": seed, "dim": dim, "box": box, "box_style": style, "maximize": maximize, "height": height}
-    spec["objective"] = force.get("objective") or gen_objective(rng, dim, box, maximize)
+    spec["objective"] = force.get("objective") or gen_objective(rng, dim, box, maximize, force.get("objective_kind"))
     engines = force.get("engines")
     spec["levels"] = [gen_level(rng, l, height, dim, engines[l] if engines else None) for l in range(height)]
     spec["gsc"] = force.get("gsc") or gen_gsc(rng, height)
